@@ -533,7 +533,7 @@ class KademliaProtocol(DatagramProtocol):
     def datagram_received(self, datagram: bytes, address: typing.Tuple[str, int]) -> None:  # pylint: disable=arguments-renamed
         try:
             message = decode_datagram(datagram)
-        except (ValueError, TypeError, DecodeError):
+        except (ValueError, TypeError, LookupError, AttributeError, RecursionError, DecodeError):
             self.peer_manager.report_failure(address[0], address[1])
             log.warning("Couldn't decode dht datagram from %s: %s", address, datagram.hex())
             return
